@@ -91,6 +91,7 @@ func (s *segment) append(b []byte) {
 	size := s.size + len(b)
 	s.setOffset(size, s.n+2)
 	s.n, s.size = s.n+1, size
+	verifSegPoint(s, "seg.appended")
 }
 
 func (s *segment) removeGTE(i uint64) error {
@@ -98,6 +99,7 @@ func (s *segment) removeGTE(i uint64) error {
 	if n < s.n {
 		s.setOffset(n, 0)
 		s.n, s.size, s.synced = n, s.offset(n+1), -1
+		verifSegPoint(s, "seg.removeGTE.header")
 	}
 	return s.sync()
 }
@@ -111,11 +113,14 @@ func (s *segment) sync() error {
 		if err := s.file.Sync(); err != nil {
 			return err
 		}
+		verifSegPoint(s, "seg.sync.data")
 		s.setOffset(s.n, 0)
+		verifSegPoint(s, "seg.sync.headerWritten")
 		if err := s.file.Sync(); err != nil {
 			return err
 		}
 		s.synced = s.n
+		verifDurable(s)
 	}
 	return nil
 }
